@@ -6,7 +6,10 @@ import itertools
 PID = "C06"
 FAM = 6
 SHRINK = False
-ALLOWED_AXIOMS = set()
+# the VISS theorems (c06_viss_*) reach Flocq through the text codec of viss_set
+ALLOWED_AXIOMS = {"Classical_Prop.classic", "ClassicalDedekindReals.sig_not_dec",
+                  "ClassicalDedekindReals.sig_forall_dec",
+                  "FunctionalExtensionality.functional_extensionality_dep"}
 RPCS = ["v1.Get", "v1.Set", "v1.StreamedUpdate", "v1.Subscribe", "v1.GetServerInfo", "v2.GetValue", "v2.GetValues",
         "v2.Subscribe", "v2.SubscribeById", "v2.Actuate", "v2.BatchActuate", "v2.ListMetadata", "v2.PublishValue",
         "v2.OpenProviderStream", "v2.GetServerInfo", "sdv.GetDatapoints", "sdv.SetDatapoints", "sdv.Subscribe",
@@ -22,11 +25,11 @@ NAMES = {"alg": ["RS256", "HS256 keyed with the public key", "none", "RS384", "R
          "scheme": ["Bearer ", "bearer ", "Basic ", "Bearer(no space)", "bare token"]}
 GOOD = {"alg": 0, "key": 0, "sig": 0, "claims": 0, "aud": 0, "exp": 3600, "scope": 0, "scheme": 0}
 VARIANTS = {"alg": [1, 2, 3, 4], "key": [1], "sig": [1, 2, 3, 4], "claims": [1, 2, 3, 4, 5, 6, 7, 8], "aud": [1, 2, 3],
-            "exp": [-3600, -90, -30, 30, 86400], "scope": [1, 2], "scheme": [1, 2, 3, 4]}
+            "exp": [-3600, -90, -30, 30, 86400, 1 << 62, (1 << 62) + 1], "scope": [1, 2], "scheme": [1, 2, 3, 4]}
 WRITERS = {1, 2, 12, 13, 20, 21}
 MANIFEST = {
-    "text": "Coq model of admission (Model/Auth.v: a token described by its deviations from a freshly signed well-formed one; the interceptor in front of every RPC; a server with one signal per RPC). Theorems: a request is admitted iff it carries, under the Bearer scheme, a token that is RS256, signed by the configured key, intact, with all claims, addressed to kuksa.val, unexpired and with a valid scope; otherwise EVERY RPC answers UNAUTHENTICATED and nothing changes; changing any one part of an admitted token invalidates it; with authorization disabled every request is served as with full rights and never answered with an access error. Tied to the code on every run end to end: the databroker's own tonic server (serve_with_incoming_shutdown with Authorization::new(jwt.key.pub) or Disabled) is started on a loopback listener and every one of the 22 RPCs of kuksa.val.v1, kuksa.val.v2 and sdv.databroker.v1 (incl. the three client-streaming ones) is called through tonic clients with tokens signed on the fly: all single-field mutations (algorithm incl. HS256 keyed with the public key and 'none', foreign key, truncated / altered signature, payload or header replaced after signing, each claim missing or ill-typed, audience, expiry on both sides incl. inside jsonwebtoken's default leeway, invalid scope, wrong header scheme), no header, garbage, plus random multi-field mutations; status codes and the state after each block (what every writing RPC wrote, what was registered) are diffed against the extracted model, and an oracle written independently in Python judges the implementation's trace.",
-    "note": "Trusted: Coq kernel (no axioms); extraction + OCaml driver (vm_compute cross-check); harness/src/fam_srv.rs (token construction with the jsonwebtoken crate and by hand for alg none / tampering; tonic clients); loopback TCP. Modelled, not verified: RSA / base64 / JSON are not modelled (the token description states whether the signature is intact); the VISS front-end resolves tokens per request and is covered by C20, not here.",
+    "text": "Coq model of admission (Model/Auth.v: a token described by its deviations from a freshly signed well-formed one; the interceptor in front of every RPC; a server with one signal per RPC). Theorems: a request is admitted iff it carries, under the Bearer scheme, a token that is RS256, signed by the configured key, intact, with all claims, addressed to kuksa.val, unexpired and with a valid scope; otherwise EVERY RPC answers UNAUTHENTICATED and nothing changes; changing any one part of an admitted token invalidates it; with authorization disabled every request is served as with full rights and never answered with an access error. Tied to the code on every run end to end: the databroker's own tonic server (serve_with_incoming_shutdown with Authorization::new(jwt.key.pub) or Disabled) is started on a loopback listener and every one of the 22 RPCs of kuksa.val.v1, kuksa.val.v2 and sdv.databroker.v1 (incl. the three client-streaming ones) is called through tonic clients with tokens signed on the fly: all single-field mutations (algorithm incl. HS256 keyed with the public key and 'none', foreign key, truncated / altered signature, payload or header replaced after signing, each claim missing or ill-typed, audience, expiry on both sides incl. inside jsonwebtoken's default leeway, invalid scope, wrong header scheme), no header, garbage, plus random multi-field mutations; status codes and the state after each block (what every writing RPC wrote, what was registered) are diffed against the extracted model, and an oracle written independently in Python judges the implementation's trace (an admitted well-formed request must be served, not merely not refused; no panic). Expiry mutations include the largest i64 / u64 number of seconds. Second part, the VISS socket: the real websocket server (viss::server::serve) on loopback with authorization enabled and with authorization disabled, requests carrying no token, a token that does not verify or a principal's token; model token kind TokOpen with theorems c06_viss_token_required, c06_viss_disabled_get (served exactly as v2 GetValue with ALLOW_ALL), c06_viss_disabled_get_refusal, c06_viss_disabled_subscribe; model and implementation are compared on the access class of every VISS reply.",
+    "note": "Trusted: Coq kernel (the gRPC theorems are axiom-free; the c06_viss_* theorems reach Flocq's 4 standard-library axioms through the text codec of viss_set, as Print Assumptions reports); extraction + OCaml driver (vm_compute cross-check); harness/src/fam_srv.rs (token construction with the jsonwebtoken crate and by hand for alg none / tampering; tonic clients), harness/src/fam_viss.rs (websocket client); loopback TCP. Modelled, not verified: RSA / base64 / JSON are not modelled (the token description states whether the signature is intact); over VISS only tokens that are absent, do not verify or are a principal's well-formed token are presented (the field-wise mutations go through the same Decoder that the gRPC part exercises).",
 }
 RULE = ("exhaustive: 22 RPCs x (well-formed token + 31 single-field mutations + no header + garbage + empty token) with "
         "authorization enabled, 22 RPCs x 6 headers with authorization disabled, plus seeded random multi-field "
@@ -41,6 +44,10 @@ ASSUMPTIONS = ["expiry offsets are at least 30 s away from the moment of the cal
 EXHAUSTIVE = True
 
 
+def exp_name(v):
+    return {1 << 62: "exp = i64::MAX", (1 << 62) + 1: "exp = u64::MAX"}.get(v, "%+d s" % v)
+
+
 def hdr(tok):
     return [1] + [tok[f] for f in FIELDS]
 
@@ -51,7 +58,7 @@ def headers_enabled():
         for v in VARIANTS[f]:
             t = dict(GOOD)
             t[f] = v
-            hs.append(("%s=%s" % (f, NAMES[f][v] if f != "exp" else "%+ds" % v), hdr(t)))
+            hs.append(("%s=%s" % (f, NAMES[f][v] if f != "exp" else exp_name(v)), hdr(t)))
     return hs
 
 
@@ -83,6 +90,9 @@ def generate(rng, tier):
     return cases
 
 
+SERVED = {9: 14, 10: 14}
+
+
 def admitted(h):
     """independent statement of the admission rule"""
     if h[0] != 1:
@@ -100,7 +110,7 @@ def describe(h):
     if h[0] == 3:
         return "'Bearer ' with an empty token"
     t = dict(zip(FIELDS, h[1:]))
-    dev = ["%s: %s" % (f, NAMES[f][t[f]] if f != "exp" else "%+d s" % t[f]) for f in FIELDS if t[f] != GOOD[f]]
+    dev = ["%s: %s" % (f, NAMES[f][t[f]] if f != "exp" else exp_name(t[f])) for f in FIELDS if t[f] != GOOD[f]]
     return "token (" + (", ".join(dev) or "well-formed") + ")"
 
 
@@ -112,6 +122,7 @@ def monitor(lines, out):
     values = {}
     registered = set()
     i = 0
+    panics = 0
     for l in lines[1:]:
         if l[0] == 1:
             if i >= len(out):
@@ -127,6 +138,17 @@ def monitor(lines, out):
                 if code in (16, 7):
                     fails.append("C06-closed: %s with %s %s answered %d" % (
                         RPCS[rpc], describe(h), "(authorization disabled)" if mode == 0 else "", code))
+                elif code != SERVED.get(rpc, 0):
+                    # the requests of this family are well-formed: with full rights each is served (Actuate and
+                    # BatchActuate answer UNAVAILABLE, there is no provider)
+                    fails.append("C06-served: %s with %s %s answered %d instead of being served" % (
+                        RPCS[rpc], describe(h), "(authorization disabled)" if mode == 0 else "", code))
+            if len(out[i - 1]) > 1 and out[i - 1][1] > panics:
+                panics = out[i - 1][1]
+                fails.append("C06-panic: a panic was recorded while %s with %s was handled" % (RPCS[rpc], describe(h)))
+            if mode == 1 and not ok:
+                pass
+            else:
                 if code == 0:
                     if rpc in WRITERS:
                         values[rpc] = k
@@ -170,3 +192,90 @@ def pretty(lines):
 
 def neighbours(lines, rng):
     return []
+
+
+class Main:
+    """the gRPC services behind the interceptor (family 6)"""
+    FAM = 6
+    SHRINK = False
+    generate = staticmethod(generate)
+    monitor = staticmethod(monitor)
+    nontrivial = staticmethod(nontrivial)
+    histogram = staticmethod(histogram)
+    pretty = staticmethod(pretty)
+    neighbours = staticmethod(neighbours)
+
+
+def _access_class(r):
+    """what C06 looks at in a VISS reply: refused for want of a (valid) token / of a right / anything else"""
+    if r[:2] == [1, 401] and len(r) > 2 and r[2] in (2, 3, 4):
+        return "token"
+    if r[:2] == [1, 403]:
+        return "forbidden"
+    return "served-or-other"
+
+
+class Viss:
+    """the VISS socket (family 20): the real websocket server with authorization enabled (requests without a
+    token, with a token that does not verify, with the principals' tokens) and with authorization disabled
+    (the same requests, which must then all be served with full rights)"""
+    FAM = 20
+
+    @staticmethod
+    def generate(rng, tier):
+        from .. import viss as VI
+        n = 60 if tier == "quick" else 1500
+        return [("v%d" % i, VI.gen_case(rng, open_mode=(i % 3 != 0))) for i in range(n)]
+
+    @staticmethod
+    def compare(lines, m, i):
+        from .. import viss as VI
+        if m is not None and [99] in m:
+            return True
+        am, ai = VI.split(lines, m or []), VI.split(lines, i or [])
+        if am is None or ai is None:
+            return m == i
+        pick = lambda al: [_access_class(o[0]) for (_l, d, o) in al if d and d["name"] in ("VGET", "VSET", "VSUB")]
+        return pick(am) == pick(ai)
+
+    @staticmethod
+    def monitor(lines, out):
+        from .. import viss as VI
+        return [f for f in VI.monitor(lines, out) if f.startswith(("C06-", "C20-token", "C20-rights", "panic", "generator"))]
+
+    @staticmethod
+    def nontrivial(lines, out):
+        from .. import viss as VI
+        al = VI.split(lines, out)
+        if al is None:
+            return None
+        cl = {_access_class(o[0]) for (_l, d, o) in al if d and d["name"] in ("VGET", "VSET", "VSUB")}
+        opened = any(d and d.get("tok", ("",))[0] == "open" for (_l, d, o) in al)
+        return hash(tuple(map(tuple, lines))) if (opened or len(cl) > 1) else None
+
+    @staticmethod
+    def histogram(lines, out):
+        from .. import viss as VI
+        al = VI.split(lines, out)
+        if al is None:
+            return ["viss: unaligned"]
+        h = []
+        for _l, d, o in al:
+            if d and d["name"] in ("VGET", "VSET", "VSUB"):
+                t = d["tok"]
+                h.append("viss %s %s -> %s" % ("authorization disabled" if t[0] == "open" else "authorization enabled",
+                                               (t[1][0] if t[0] == "open" else t[0]).replace("p", "principal token").replace("none", "no token").replace("bad", "bad token"),
+                                               _access_class(o[0])))
+        return h
+
+    @staticmethod
+    def pretty(lines):
+        from .. import viss as VI
+        return VI.pretty(lines)
+
+    @staticmethod
+    def neighbours(lines, rng):
+        return []
+
+
+PARTS = [Main, Viss]
